@@ -323,6 +323,21 @@ Proof.
   repeat (split; try reflexivity; try exact H); try (apply sb_refl).
 Qed.
 
+(* re-initialisation: both forget everything *)
+Lemma sq_reinit t u : same_qt t u -> same_qt (qt_reinit t) (qt_reinit u).
+Proof.
+  intros (Hcap & _ & _ & _ & (Hc & _ & Hn & _) & _ & _).
+  unfold same_qt, qt_reinit, l_reinit, same_l, dry_report. cbn [qt_s qt_l s_cap s_sto s_sto_ s_act l_a l_n l_b l_decayed].
+  assert (A : forall l, a_cap (l_a (l_end l)) = a_cap (l_a l) /\ a_fin (l_a (l_end l)) = 0 /\ l_n (l_end l) = l_n l).
+  { intros l. unfold l_end. destruct (l_dec l); cbn [l_a l_n a_end a_cap a_fin]; repeat split; reflexivity. }
+  destruct (A (qt_l t)) as (A1 & A2 & A3), (A (qt_l u)) as (B1 & B2 & B3).
+  rewrite A1, A2, A3, B1, B2, B3.
+  split; [exact Hcap|]. split; [apply sv_refl|]. split; [apply sv_refl|]. split; [apply sv_refl|].
+  split; [|split; unfold vzero; cbn [vol]; reflexivity].
+  split; [exact Hc|]. split; [reflexivity|]. split; [exact Hn|].
+  constructor; [apply sv_refl|]. constructor; [apply sv_refl|]. constructor.
+Qed.
+
 (* whole histories: the same operations on a plain and a decaying queue tank (or two tanks with different pollutants)
    give the same volumes at every step *)
 Definition same_op (o o' : qop) : Prop :=
@@ -336,13 +351,14 @@ Definition same_op (o o' : qop) : Prop :=
   | QEnd _, QEnd _ => True                      (* temperatures are free *)
   | QDs, QDs => True
   | QSetT _, QSetT _ => True
+  | QReinit, QReinit => True
   | _, _ => False
   end.
 
 Theorem sq_do t u o o' : same_qt t u -> same_op o o' ->
   same_qt (fst (qtank_do t o)) (fst (qtank_do u o')) /\ same_vol (snd (qtank_do t o)) (snd (qtank_do u o')).
 Proof.
-  intros H Ho. destruct o as [v time f | q | v | ov | | T | | T], o' as [w time' f' | q' | w | ow | | T' | | T'];
+  intros H Ho. destruct o as [v time f | q | v | ov | | T | | T |], o' as [w time' f' | q' | w | ow | | T' | | T' |];
     cbn [same_op] in Ho; try contradiction; try (destruct ov as [?|]; contradiction); cbn [qtank_do].
   - destruct Ho as (Hv & -> & ->). apply sq_push; assumption.
   - subst q'. apply sq_pull; assumption.
@@ -355,6 +371,7 @@ Proof.
   - cbn [fst snd]. split; [|apply sv_refl].
     destruct H as (H1 & H2 & H3 & H4 & H5 & H6 & H7). unfold same_qt, qt_set_T; cbn [qt_s qt_l].
     split; [exact H1 | split; [exact H2 | split; [exact H3 | split; [exact H4 | split; [exact H5 | split; assumption]]]]].
+  - cbn [fst snd]. split; [apply sq_reinit; exact H | apply sv_refl].
 Qed.
 
 Fixpoint qrun (t : qtank) (ops : list qop) : list vqip :=
